@@ -21,7 +21,7 @@ from ..workload import REDUCTIONS, build_estimator, gen_dataset
 
 PROPERTY = "C20"
 LEVEL = "exploration"
-TIERS = {"quick": {"runs": 9000, "wall": 300}, "thorough": {"runs": 9000, "wall": 1800}}
+TIERS = {"quick": {"runs": 9000, "wall": 300}, "thorough": {"runs": 9000, "wall": 1800, "chunk": 8}}
 RTOL_MODEL = 1e-9  # history-laden object vs fresh model (calibrated: bit-identical)
 RTOL_REPEAT = 1e-12
 
